@@ -2,3 +2,5 @@ import Qv.Model.Basic
 import Qv.Model.Arith
 import Qv.Model.Values
 import Qv.Model.Expr
+import Qv.Model.Sat
+import Qv.Model.Extrema
